@@ -101,7 +101,7 @@ class C08(Check):
                 b, _ = gen.gen_pipeline(rng, 'i', rng.randint(1, 3), opts, st, opts.max_depth)
                 branches.append(b)
             items = gen.gen_items(rng, hi=rng.choice([6, 12, 30]), sorted_=(ctx == 'time_split'))
-            if plain and (k // len(names)) % 3 == 1:
+            if plain and rng.random() < 0.34:       # (drawn: (k // len(names)) % 3 is what selects the join)
                 branches[rng.randrange(nb)] = [['rxflat']] + ([['map', 'add:1']] if rng.random() < 0.5 else [])
             dirty = None
             if k % 5 == 2 and not plain and items:
@@ -155,8 +155,8 @@ class C08(Check):
                 return out
             if ctx == 'plain' and join in ('zip', 'merge') and not case.get('prelude'):
                 # the same tee on a COLD source (rx.from_: the current-thread trampoline defers what RxPY-native operators with
-                # inner observables emit until after the source completed): zip pairs the k-th values whatever their timing,
-                # merge delivers the same multiset
+                # inner observables emit until after the source completed): merge delivers the same multiset; zip the same tuples as long
+                # as no branch holds such an operator
                 import rx
                 from ..common import subscribe
                 def sync_source(observer, scheduler=None):
@@ -165,7 +165,12 @@ class C08(Check):
                     for x in items:
                         observer.on_next(x)
                     observer.on_completed()
+                native = any(n[0] == 'rxflat' for b in branches for _, n in progs.walk(b))
                 for kind, source in (('rx.from_', rx.from_(items)), ('rx.create emitting while it is subscribed', rx.create(sync_source))):
+                    if native and join == 'zip':
+                        # (a zip tuple holds the LATEST value of every branch since the last tuple: when the trampoline defers what a
+                        # branch with inner observables emits, other values are the latest - a different, equally correct, output)
+                        continue
                     cold = subscribe(source.pipe(*progs.build([tee] + after)), Snap())
                     out.observed['cold_source_runs_compared'] += 1
                     a, b = [norm(v) for v in cold.out], [norm(v) for v in got.out]
